@@ -48,6 +48,8 @@ fn gen_plan(ch: &mut Ch) -> Plan {
     let mut resources = BTreeMap::new();
     resources.insert(path.clone(), ResSpec { lens: vec![body_len], opts: vec![], up_reply_lens: vec![0], own_block2: None, code: None });
     resources.insert(vec![seg("noise")], ResSpec { lens: vec![3], opts: vec![], up_reply_lens: vec![0], own_block2: None, code: None });
+    // a representation that is always served block-wise
+    resources.insert(vec![seg("big")], ResSpec { lens: vec![3000], opts: vec![], up_reply_lens: vec![0], own_block2: None, code: None });
     // idle gaps between consecutive arrivals of the observed transfer
     let nex = (body_len + size - 1) / size;
     let mut gaps = Vec::new();
@@ -146,6 +148,11 @@ fn gen_plan(ch: &mut Ch) -> Plan {
                 if ch.chance(1, 4, "e.som.far-block1") {
                     let p3 = vec![seg("elsewhere")];
                     return build_request(3, MessageType::NonConfirmable, 42000 + i as u16, &[0xED, i as u8], &p3, &[], Some((4095, true, 6)), None, &[0x66; 16]);
+                }
+                // ... or the start of another block-wise download (left
+                // unfinished) on another path
+                if ch.chance(1, 4, "e.som.other-download") {
+                    return build_request(1, MessageType::NonConfirmable, 43000 + i as u16, &[0xEC, i as u8], &[seg("big")], &[], None, None, &[]);
                 }
                 // ... or the same method on the path with a trailing empty
                 // segment ("/obs/" next to "/obs"): another key as well
